@@ -190,7 +190,8 @@ def pool():
 def model_histories(cases):
     """M: per history, per op >= check_from {"out","ids","keys","ans"} from the Lean state machine
     (None for the build prefix)"""
-    res = driver.call_batch([{"op": "c03", "ops": c["ops"], "from": c.get("check_from", 0)} for c in cases])
+    res = driver.call_batch([{"op": "c03", "ops": [O.canon_op(o) for o in c["ops"]], "from": c.get("check_from", 0)}
+                             for c in cases])
     out = []
     for c, r in zip(cases, res):
         start = c.get("check_from", 0)
